@@ -70,18 +70,30 @@ func (p *ProbeImpl) Terminated() int {
 	return p.Terms
 }
 
+// shortText abbreviates the padding of large arguments in the execution log.
+func shortText(t string) string {
+	n := 0
+	for n < len(t) && t[n] == 'p' {
+		n++
+	}
+	if n > 8 {
+		return fmt.Sprintf("p*%d%s", n, t[n:])
+	}
+	return t
+}
+
 func tokOf(t probe.Token) ref.Token {
 	return ref.Token{Client: t.Client, Seq: t.Seq, Nonce: t.Nonce, Text: t.Text}
 }
 
 func (p *ProbeImpl) Echo(tok probe.Token) (probe.Token, error) {
-	n := p.Env.Executed("echo", p.Obj, tokOf(tok).Key(), tok.Text)
+	n := p.Env.Executed("echo", p.Obj, tokOf(tok).Key(), shortText(tok.Text))
 	tok.Text = fmt.Sprintf("%s|o%d|x%d", tok.Text, p.Obj, n)
 	return tok, nil
 }
 
 func (p *ProbeImpl) Fire(tok probe.Token) error {
-	p.Env.Executed("fire", p.Obj, tokOf(tok).Key(), tok.Text)
+	p.Env.Executed("fire", p.Obj, tokOf(tok).Key(), shortText(tok.Text))
 	return nil
 }
 
@@ -91,7 +103,7 @@ func (p *ProbeImpl) Noarg() (int32, error) {
 }
 
 func (p *ProbeImpl) Slow(tok probe.Token) (probe.Token, error) {
-	n := p.Env.Executed("slow", p.Obj, tokOf(tok).Key(), tok.Text)
+	n := p.Env.Executed("slow", p.Obj, tokOf(tok).Key(), shortText(tok.Text))
 	if p.SlowMs > 0 {
 		time.Sleep(time.Duration(p.SlowMs) * time.Millisecond)
 	}
@@ -140,7 +152,7 @@ func (l *LentImpl) Activate(a bus.Activation, h probe.LentSignalHelper) error { 
 func (l *LentImpl) OnTerminate()                                              {}
 
 func (l *LentImpl) Echo(tok probe.Token) (probe.Token, error) {
-	n := l.Env.Executed("echo", l.Obj, tokOf(tok).Key(), tok.Text)
+	n := l.Env.Executed("echo", l.Obj, tokOf(tok).Key(), shortText(tok.Text))
 	tok.Text = fmt.Sprintf("%s|o%d|x%d", tok.Text, l.Obj, n)
 	return tok, nil
 }
